@@ -26,6 +26,7 @@ mod eng_pair;
 mod gen_pair;
 mod mon_pair;
 mod eng_attr;
+mod eng_file70;
 
 use std::io::Write;
 
@@ -49,6 +50,7 @@ fn main() {
                 "ffi" => eng_ffi::gen(thorough, seed, &mut out),
                 "db" => eng_db::gen(thorough, seed, &mut out),
                 "attr" => eng_attr::gen(thorough, seed, &mut out),
+                "file70" => eng_file70::gen(thorough, seed, &mut out),
                 "convert" => eng_convert::gen(thorough, seed, &mut out),
                 "outstation" => gen_outstation::gen(thorough, seed, &mut out, gen_outstation::GenCfg { with_db: false }),
                 "master" => gen_master::gen(thorough, seed, &mut out),
@@ -77,6 +79,7 @@ fn main() {
                 "ffi" => eng_ffi::run(&ops, &mut out, &mut mon),
                 "db" => eng_db::run(&ops, &mut out, &mut mon),
                 "attr" => eng_attr::run(&ops, &mut out, &mut mon),
+                "file70" => eng_file70::run(&ops, &mut out, &mut mon),
                 "convert" => eng_convert::run(&ops, &mut out, &mut mon),
                 "outstation" | "outstationdb" => eng_outstation::run(&ops, &mut out, &mut mon),
                 "master" => eng_master::run(&ops, &mut out, &mut mon),
